@@ -6,6 +6,7 @@ member-map model below (`put` replaces exactly one member; compact / close / ope
 do not change any member).  TRUSTED, validated by the harness on the real library.
 -/
 import RichchkModel.Lemmas.FsLemmas
+import RichchkModel.Props.C07
 namespace Richchk.Props.C17
 open Richchk
 
@@ -77,5 +78,54 @@ theorem c17_wav_duration_is_floor (frames rate : Nat) (hr : 0 < rate) :
 /-- the repaired defect F11's witness: 8008 frames at 8000 Hz last 1001 ms (the float formula
 `int(frames / float(rate) * 1000)` gave 1000) -/
 example : wavDurationMs 8008 8000 = 1001 := by decide
+
+/-! ### the sound table after an import batch -/
+
+theorem addWavsTo_go_lists (ps : List Bytes) :
+    ∀ (free : List Nat) (present : List Bytes) (acc ws' : List RWav),
+      addWavsTo.go ps free present acc = .ok ws' →
+      (∀ q ∈ present, ∃ w ∈ acc, w.path.value = q) →
+      ∀ p ∈ ps, ∃ w ∈ ws', w.path.value = p := by
+  induction ps with
+  | nil => intro _ _ _ _ _ _ p hp; simp at hp
+  | cons p0 ps ih =>
+    intro free present acc ws' h hinv p hp
+    have hpre := Props.C07.addWavsTo_go_prefix _ _ _ _ _ h
+    simp only [addWavsTo.go] at h
+    split at h
+    · rename_i hc
+      rcases List.mem_cons.mp hp with e | e
+      · subst e
+        obtain ⟨w, hw, hv⟩ := hinv p (by simpa using hc)
+        exact ⟨w, hpre.subset hw, hv⟩
+      · exact ih _ _ _ _ h hinv p e
+    · split at h
+      · cases h
+      · rename_i f fs
+        have hpre' := Props.C07.addWavsTo_go_prefix _ _ _ _ _ h
+        have hinv' : ∀ q ∈ p0 :: present, ∃ w ∈ acc ++ [(⟨.text p0, f⟩ : RWav)], w.path.value = q := by
+          intro q hq
+          rcases List.mem_cons.mp hq with e | e
+          · subst e; exact ⟨⟨.text q, f⟩, by simp, rfl⟩
+          · obtain ⟨w, hw, hv⟩ := hinv q e
+            exact ⟨w, List.mem_append_left _ hw, hv⟩
+        rcases List.mem_cons.mp hp with e | e
+        · subst e
+          exact ⟨⟨.text p, f⟩, hpre'.subset (by simp), rfl⟩
+        · exact ih _ _ _ _ h hinv' p e
+
+/-- **every sound of an import batch is listed afterwards**: when `add_wav_files` succeeds, each path of the batch
+— new, already listed, or repeated within the batch, in whatever order they come — is the path of some entry of the
+resulting sound table (and by `c07_add_wavs_keeps_existing` everything listed before is still there, in its slot).
+For every table, every batch. -/
+theorem c17_every_imported_path_is_listed {slots : Nat} {ws ws' : List RWav} {paths : List Bytes}
+    (h : addWavsTo slots ws paths = .ok ws') : ∀ p ∈ paths, ∃ w ∈ ws', w.path.value = p := by
+  refine addWavsTo_go_lists paths _ _ _ _ h ?_
+  intro q hq
+  obtain ⟨w, hw, hv⟩ := List.mem_map.mp hq
+  exact ⟨w, hw, hv⟩
+
+/-- non-vacuity, and the shape of the seeded change this guards against: a batch whose first path is already listed -/
+example : addWavsTo 4 [⟨.text [1], 0⟩] [[1], [2], [2], [3]] = .ok [⟨.text [1], 0⟩, ⟨.text [2], 1⟩, ⟨.text [3], 2⟩] := by decide
 
 end Richchk.Props.C17
